@@ -11,16 +11,15 @@ class IssuerParameter:
         )
 
     def add_issuer_parameter(self, hook_type: str, response):
-        if self.get_issuer() and response.location:
+        location = _get_location(response)
+        if self.get_issuer() and location:
             # RFC9207 §2
             # In authorization responses to the client, including error responses,
             # an authorization server supporting this specification MUST indicate
             # its identity by including the iss parameter in the response.
 
-            new_location = add_params_to_uri(
-                response.location, {"iss": self.get_issuer()}
-            )
-            response.location = new_location
+            new_location = add_params_to_uri(location, {"iss": self.get_issuer()})
+            _set_location(response, new_location)
 
     def get_issuer(self) -> Optional[str]:
         """Return the issuer URL.
@@ -30,3 +29,21 @@ class IssuerParameter:
                 return "https://auth.example.org"
         """
         return None
+
+
+def _get_location(response):
+    # werkzeug responses have a ``location`` attribute, Django responses
+    # are a mapping of their headers
+    if hasattr(response, "location"):
+        return response.location
+    try:
+        return response["Location"]
+    except (KeyError, TypeError):
+        return None
+
+
+def _set_location(response, location):
+    if hasattr(response, "location"):
+        response.location = location
+    else:
+        response["Location"] = location
